@@ -124,7 +124,10 @@ func runC10(c *engine.Ctx, tier string) {
 	c.Guard(engine.Guard{ID: "C10.5", Pkg: pkgProposalCtl, Min: 1, Sel: engine.Sel{Call: sbSet},
 		Require: "!(@CFG.Status.State == config/v2.ConfigurationStatus_SYNCHRONIZING) && !(@CFG.Status.Applied.Mastership.Term < @CFG.Status.Mastership.Term)",
 		Why:     "no new change is sent in a term before the previously applied configuration was re-sent in that term"})
-	connLifecycle(c)
+	connLifecycle(c, "C10.6")
+	// "its mastership term never decreases": master and term live in the configuration record, which the
+	// proposal and configuration controllers also write; a writer that read an older master/term must lose
+	conditionalUpdatesAs(c, "C10.8", pkgStoreCfgV2, 3)
 	// the target controller: a target in topo is connected to, a target that left is disconnected from, failures are retried
 	saved := c.Al
 	c.Al = engine.NewAliases(c.P, "TGTE", "call:store/topo.Store.Get($ID.Value.(topo.ID))")
@@ -278,8 +281,8 @@ func electionRule(c *engine.Ctx, id string) {
 
 // connLifecycle: C10.6. A connection exists in the manager exactly while its channel is Ready, every
 // connection has an identity of its own, and every change of the set is announced.
-func connLifecycle(c *engine.Ctx) {
-	o := c.Custom("C10.6", "K-facts(connection lifecycle)", "newConn takes its id from newConnID(), which is built from uuid.New(); in the state loop of Connect: Ready ∧ no connection ⇒ newConn + addConn, a state other than Ready/Idle ∧ a connection ⇒ removeConn(its id) and nothing else removes or adds; addConn stores the connection under its own id and announces it; removeConn deletes it and announces it iff it was there",
+func connLifecycle(c *engine.Ctx, id string) {
+	o := c.Custom(id, "K-facts(connection lifecycle)", "newConn takes its id from newConnID(), which is built from uuid.New(); in the state loop of Connect: Ready ∧ no connection ⇒ newConn + addConn, a state other than Ready/Idle ∧ a connection ⇒ removeConn(its id) and nothing else removes or adds; addConn stores the connection under its own id and announces it; removeConn deletes it and announces it iff it was there",
 		"a re-established connection must be a new CONTROLS relation (a new term, C10.1b), a lost one must disappear (mastership is re-assigned), and the connection controller learns both from the announcements")
 	defer o.Done(6)
 	ps, err := c.A.PathsOpt("pkg/southbound/gnmi", engine.PathOpts{Roots: []string{"connManager.Connect", "connManager.addConn", "connManager.removeConn", "gnmi.newConn", "gnmi.newConnID"}, NoInline: true})
